@@ -290,6 +290,16 @@ func corrC16(c *corrCtx) {
 			emit("date", h[:])
 		}
 	}
+	// the end of February in every kind of year (common, leap, century, 400th)
+	for _, y := range []int{1600, 1900, 1999, 2000, 2023, 2024, 2100, 2400} {
+		for _, md := range [][2]int{{2, 28}, {2, 29}, {2, 30}, {3, 1}, {12, 31}, {1, 1}} {
+			h := iccHeader(r)
+			binary.BigEndian.PutUint16(h[24:], uint16(y))
+			binary.BigEndian.PutUint16(h[26:], uint16(md[0]))
+			binary.BigEndian.PutUint16(h[28:], uint16(md[1]))
+			emit("date-february", h[:])
+		}
+	}
 	for _, hh := range []int{0, 23, 24} {
 		for _, mm := range []int{0, 59, 60} {
 			for _, ss := range []int{0, 1, 59, 60, 61, 65535} {
